@@ -404,7 +404,9 @@ pub(super) fn read_genotype_values(
 
     match read_type(src).map_err(DecodeError::InvalidType)? {
         Some(Type::Int8(len)) => match len {
-            0 => values.push(None),
+            // No sample has a genotype. Every sample gets a (missing) value: the columns that
+            // follow are pushed to the same rows.
+            0 => values.extend((0..sample_count).map(|_| None)),
             1 => {
                 for _ in 0..sample_count {
                     let value = read_i8(src)
